@@ -10,9 +10,9 @@ TRUST = ("Trusted base: TLC 1.8 and the TLA+ specs' reading of the code; the bac
          "(concurrent.futures is CPython's own source re-executed over the shims); blake2b collision-freeness. "
          "Bounded: results hold for the stated constants and for the executions actually generated (counted in evidence).")
 
-DUR = '''TLA+ spec Durable.tla (replay engine across invocations: every handler's check_result_status/execute case split, sync/async checkpoints, FIFO+Flush(k) pipeline abstraction, crash at every point, suspension, timers, external completions, API failures, backend lifecycle Legal/Apply) model-checked exhaustively with TLC on a curated program family; real SDK (real wrapper, handlers, batcher thread) run over many invocations against a stateful ModelBackend under a deterministic scheduler; every execution checked by direct oracles and validated as a behaviour of the spec by TLC trace validation (DurableTrace.tla)'''
+DUR = '''TLA+ spec Durable.tla (replay engine across invocations: every handler's check_result_status/execute case split, sync/async checkpoints, FIFO+Flush(k) pipeline abstraction, crash at every point, suspension, timers, external completions, API failures, backend lifecycle Legal/Apply) model-checked exhaustively with TLC on a curated program family; real SDK (real wrapper, handlers, batcher thread) run over many invocations against a stateful ModelBackend under a deterministic scheduler; every execution checked by direct oracles and validated as a behaviour of the spec by TLC trace validation (DurableTrace.tla); the environment model includes calls that are applied but whose answer is lost, paginated answers and histories, failing page fetches, slow calls; the FIFO+Flush(k) abstraction is discharged by the refinement Batcher.tla => Pipe.tla'''
 
-EXE = '''TLA+ spec Executor.tla (map/parallel branch machine: submission, worker pool bound, done-callback split into status write / policy decision / one-status-per-step suspend scan, timer resubmission, cancellation, result construction, orphan marking; completion policy and reason classifier transcribed) model-checked exhaustively with TLC over a sweep of branch scripts x max_concurrency x completion configs; real SDK programs with map/parallel (nested, early completion, failures, waits/retries/callbacks inside branches) executed over many invocations against ModelBackend under a deterministic scheduler with function durations, API latency and crashes; direct oracles on the delivered BatchResult, the backend's update stream and the observed concurrency'''
+EXE = '''TLA+ spec Executor.tla (map/parallel branch machine: submission, worker pool bound, done-callback split into status write / policy decision / one-status-per-step suspend scan, timer resubmission, cancellation, result construction, orphan marking; completion policy and reason classifier transcribed) model-checked exhaustively with TLC over a sweep of branch scripts x max_concurrency x completion configs; real SDK programs with map/parallel (nested, early completion, failures, waits/retries/callbacks inside branches) executed over many invocations against ModelBackend under a deterministic scheduler with function durations, API latency and crashes; direct oracles on the delivered BatchResult, the backend's update stream and the observed concurrency; recorded executions (first and later invocations of a call, crashed prefixes) validated as behaviours of the spec by TLC trace validation (ExecutorTrace.tla); the timer thread, the scheduler lock and inline done-callbacks are modelled, and every SDK lock gets slow-holder schedules on the real code'''
 
 CHECKS = {
     "C15": dict(technique="TLA+ transcription Codec.tla of the default serializer's dispatch (is_primitive fast path vs tagged envelope, per-node wrapping, _unwrap rule, JSON's treatment of tuples and dict keys, BatchResult/BatchItem/ErrorObject dict forms) over an abstract value grammar; TLC enumerates every value shape up to depth 2-3 (one state per value) and checks RoundTrip / LookAlikeSafe / NoSilentAlteration; every enumerated shape is concretised from boundary leaf pools and run through the real ExtendedTypeSerDes and serialize()/deserialize() (table generation), comparing path, wire token tree, decoded shape and typed-exact equality; seeded random deeper values on top", text="The structural half of the property (dispatch, wrapping, look-alike unambiguity, key handling) is decided exhaustively by TLC on the transcription and bound to the code shape by shape; leaf-level fidelity (floats, Decimal text, isoformat, surrogates) is only sampled through pools and random values - the evidence says which is which.", design_ref="DESIGN.md 3.6, 5 (C15)", note="Trusted base: TLC; the transcription is bound to the code by comparing the model's predicted path / wire tree / decoded shape with the real serializer for every enumerated shape. Leaf bit patterns are sampled, not exhaustive."),
